@@ -210,6 +210,11 @@ def seeded_samples(ctx, rng):
         dim = rng.randint(1, 40) if rng.random() < 0.97 else rng.choice([101, 177])
         a2 = rng.choice([0, 0, 7]) if dim > 8 else 0
         c = dim - a2
+        if dim > 2 and rng.random() < 0.25:
+            # the source square is a small part of the grid: the cells outside it are extrapolated, and a row's interior
+            # points can leave the image (on any side) while its end points are inside ("twisted" transforms)
+            a2 = rng.randint(0, dim)
+            c = rng.randint(1, max(1, dim // 2))
         for _ in range(200):
             m = rng.choice([0, 0, 0, 1])                            # corners inside the image, sometimes one pixel outside
             q = [rng.randint(-m, w - 1 + m), rng.randint(-m, h - 1 + m), rng.randint(-m, w - 1 + m), rng.randint(-m, h - 1 + m),
@@ -220,6 +225,12 @@ def seeded_samples(ctx, rng):
             continue
         out.append(ev("sample", mode=i % 2, w=w, h=h, img=rand_image(rng, w, h), dimx=dim, dimy=dim, a2=a2, c=c,
                       dst=[16 * v for v in q]))
+    # regression (fixed 36fd29a): row end points inside the image, interior points above / left of it
+    rr = random.Random(36)
+    out.append(ev("sample", mode=0, w=22, h=39, img=rand_image(rr, 22, 39), dimx=10, dimy=10, a2=7, c=3,
+                  dst=[192, 608, 160, 176, 144, 160, 32, 592]))
+    out.append(ev("sample", mode=1, w=22, h=39, img=rand_image(rr, 22, 39), dimx=10, dimy=10, a2=7, c=3,
+                  dst=[192, 608, 160, 176, 144, 160, 32, 592]))
     return out
 
 
